@@ -47,12 +47,14 @@ Definition sx_labels (l : option (list (ustr * label))) : sexp :=
 Definition run_map (tag : ustr) (args : list sexp) : option sexp :=
   if tag_is tag "mat" then
     match args with
-    | [c; s; d] => do c' <- de_cfg c; do s' <- de_listof de_source s; do d' <- de_doc d; Some (sx_result (engine_lines c' s' d'))
+    | [c; s; d] => do c' <- de_cfg c; do s' <- de_listof de_source s; do d' <- de_doc d;
+                   Some (if case_unmodelled s' d' then sx_result (Err EUnmodelled) else sx_result (engine_lines c' s' d'))
     | _ => None
     end
   else if tag_is tag "spec" then
     match args with
-    | [c; s; d] => do c' <- de_cfg c; do s' <- de_listof de_source s; do d' <- de_doc d; Some (L [A (u "ok"); sx_strs (spec_case_lines c' s' d')])
+    | [c; s; d] => do c' <- de_cfg c; do s' <- de_listof de_source s; do d' <- de_doc d;
+                   Some (if case_unmodelled s' d' then sx_result (Err EUnmodelled) else L [A (u "ok"); sx_strs (spec_case_lines c' s' d')])
     | _ => None
     end
   else if tag_is tag "rules" then
